@@ -66,6 +66,14 @@ CLAIMED["C07"] = dict(
     note="Trusted: nothing beyond byte comparison. Bounded by the corpora, which are exhaustive enumerations of their grammars.",
     design="DESIGN.md 3/C07",
 )
+CLAIMED["C15"] = dict(
+    level="model_checking",
+    engine="E1",
+    technique="explicit-state breadth-first exploration of live SVG objects (53-action alphabet, canonical-state dedup, per-transition differential oracle lazy vs serialise-and-reparse)",
+    text="Breadth-first search over the reachable states of real SVG objects from several root documents under an alphabet of 53 actions (21 operation variants x in-place/copy, append_to, 10 queries); states are deduplicated by (tree bytes, shape cache); every (state, action) pair is executed and judged by the differential oracle (lazy == eager, copy semantics, in-place return). Depth 3 completed in quick (the statement's exhaustive bound), deeper / to closure in thorough within a time cap that is reported. By induction over histories the per-transition oracle implies the whole-history statement for all histories whose states were reached.",
+    note="Trusted: canonical-state soundness argument (DESIGN 3/C15), lxml C14N for comparison. Queries are judged by lazy==eager only.",
+    design="DESIGN.md 3/C15",
+)
 NOT_YET = "check not built yet in this session (design in DESIGN.md section 3); no claim is made"
 
 checks = []
